@@ -16,7 +16,7 @@ func init() {
 		Explanation: "R1 case discipline: every value read from Token.Raw/Token.AsString that takes part in a decision of the parser goes through char.EqualFold (Token.IsKeywordLike/IsIdent, whose shape is checked); a direct ==, switch or map lookup of the spelling against a constant containing a letter is a violation; user-visible values are stored without case conversion; reserved words are matched on Kind, which the lexer derives through char.ToUpper (C14/R1). " +
 			"R2 trivia and position non-interference: forward taint analysis over the SSA of package memefish from Token.Space, Token.Comments and every token.Pos-typed value (Token.Pos/End, node Pos()/End(), Lexer.pos) to the sinks 'branch condition in a parser function' and 'store into a non-position field of an ast node' (BadNode.Tokens excepted; token.Pos.Invalid() is the one sanitiser: it separates 'absent' from any real offset). There must be no flow: comments, whitespace and offsets cannot change the tree. " +
 			"R3 keyword-class consistency (C08/R2, shared). Does not decide: the lexer side (that re-spacing never changes token boundaries).",
-		Rules: []ruleFn{ruleC16R1, ruleC16R2, ruleC08R2, ruleC14R8},
+		Rules: []ruleFn{ruleC16R1, ruleC16R2, ruleC08R2, ruleC14R8, ruleC14R5, ruleC14R7},
 	})
 }
 
@@ -384,6 +384,50 @@ func ruleC16R1(w *World, r *Report) {
 		r.errorf("only %d reads of Token.Raw/AsString found in the parser", len(srcs))
 	}
 	sl := w.forwardSlice(srcs, func(f *ssa.Function) bool { return f == eq })
+	// spellings parked in the tree and read back by the parser (ident.Name == "VALUE"): the string fields of ast
+	// nodes that receive a spelling are spellings too
+	type fkey struct {
+		st   *types.Named
+		name string
+	}
+	spellFields := map[fkey]bool{}
+	for v := range sl {
+		for _, u := range referrers(v) {
+			if st, ok := u.(*ssa.Store); ok && st.Val == v {
+				if fa, ok := st.Addr.(*ssa.FieldAddr); ok {
+					if n := fieldAddrStruct(fa); n != nil && n.Obj().Pkg() != nil && n.Obj().Pkg().Path() == modRoot+"/ast" && isStringType(v.Type()) {
+						spellFields[fkey{n, fieldAddrName(fa)}] = true
+					}
+				}
+			}
+		}
+	}
+	nback := 0
+	for _, fn := range w.ModFns {
+		if fnPkgPath(fn) != modRoot || (fn.Signature.Recv() != nil && w.isLexerPtr(fn.Signature.Recv().Type())) {
+			continue
+		}
+		for _, b := range fn.Blocks {
+			for _, in := range b.Instrs {
+				v, ok := in.(ssa.Value)
+				if !ok {
+					continue
+				}
+				if ld, isL := isLoad(v); isL {
+					if fa, ok := ld.(*ssa.FieldAddr); ok {
+						if n := fieldAddrStruct(fa); n != nil && spellFields[fkey{n, fieldAddrName(fa)}] {
+							srcs = append(srcs, v)
+							nback++
+						}
+					}
+				}
+			}
+		}
+	}
+	if nback > 0 {
+		sl = w.forwardSlice(srcs, func(f *ssa.Function) bool { return f == eq })
+	}
+	r.count("spelling fields of ast nodes read back in the parser", nback)
 	nbad := 0
 	for v := range sl {
 		in, ok := v.(ssa.Instruction)
